@@ -124,7 +124,8 @@ def main(argv=None):
   tasks = []
   for t in mod.tasks(a.tier, seed):
     hname, cfg = t[0], t[1]
-    caps = dict(getattr(mod, "CAPS", {}).get(a.tier, {}))
+    caps = {"task_s": 300 if a.tier == "quick" else 2400}
+    caps.update(getattr(mod, "CAPS", {}).get(a.tier, {}))
     if len(t) > 2 and t[2]: caps.update(t[2])
     if a.only and a.only not in hname and a.only not in json.dumps(core._jsonable(cfg)):
       continue
